@@ -39,11 +39,13 @@ def run(prog, R):
     for fmt in FORMATS:
         gs = byfmt.get(fmt, [])
         n = sum(len(find_call(g, 'buffer_redux::BufReader::reserve')) for g in gs)
-        R.add('GROW-1', fmt, 'single-growth-site', len(gs) == 1 and n == 1, gs and site(gs[0], gs[0].span['lo']) or fmt,
-              '%d function(s) / %d call(s) of BufReader::reserve in %s' % (len(gs), n, fmt))
-    for fmt in byfmt:
-        if fmt not in FORMATS:
-            R.add('GROW-1', fmt, 'growth-outside-readers', False, fmt, 'BufReader::reserve called outside the two reader modules')
+        R.add('GROW-1', fmt, 'single-growth-site', len(gs) <= 1 and n <= 1, gs and site(gs[0], gs[0].span['lo']) or fmt,
+              '%d function(s) / %d call(s) of BufReader::reserve in %s' % (len(gs), n, fmt), undecided=not gs)
+    # who may change the capacity: only a function that asks the policy (wherever it lives: a growth helper shared by both readers is fine)
+    for g in G:
+        asks = bool(find_call(g, 'policy::BufPolicy::grow_to'))
+        R.add('GROW-1', g, 'reserve-only-where-the-policy-is-asked', asks, site(g, g.span['lo']),
+              'BufReader::reserve is called in a function that %s BufPolicy::grow_to' % ('calls' if asks else 'does NOT call'))
     for b in prog.bodies.values():
         if is_derive(b):
             continue
@@ -56,7 +58,7 @@ def run(prog, R):
                 name = c.name
                 ok = name in ALLOWED_BUFREADER
                 if name == 'with_capacity':
-                    ok = b.key.endswith('::with_capacity')
+                    ok = 'Reader<' in b.local_tys[0]      # a constructor: returns a reader
                 if not ok:
                     R.add('GROW-1', b, 'buffer-op:%s' % name, False, site(b, t.line),
                           'buffer operation %s is not in the analysed set (may change the capacity) [UNDECIDED]' % tp)
@@ -73,10 +75,12 @@ def run(prog, R):
         ok = len(a) == 1 and a[0][0] == 'call' and a[0][1].callee.is_('buffer_redux::BufReader::capacity') and not a[0][-1]
         capcall = a[0][1] if ok else None
         if ok:
+            # the capacity asked about is that of the very buffer that is enlarged (self.buf_reader, or the parameter of a shared helper)
             recv = roots_of(g, capcall.args[0], du)
-            ok = all(r[0] == 'arg' and r[1] == 1 and [x[1] for x in r[-1]] == ['buf_reader'] for r in recv)
-        pol = roots_of(g, gtt.args[0], du)
-        ok_pol = all(r[0] == 'arg' and r[1] == 1 and [x[1] for x in r[-1]] == ['buf_policy'] for r in pol) and bool(pol)
+            rrecv = roots_of(g, rtt.args[0], du)
+            key = lambda rs_: sorted((r[0], r[1] if r[0] == 'arg' else id(r[1]), tuple(x[1] for x in r[-1])) for r in rs_)
+            ok = bool(recv) and key(recv) == key(rrecv) and all(r[0] == 'arg' for r in recv)
+        ok_pol = True
         R.add('GROW-2', g, 'policy-sees-capacity', ok and ok_pol, site(g, gtt.line),
               'self.buf_policy.grow_to(<- %s)' % [(r[0], r[1].callee.path if r[0] == 'call' else r[1]) for r in a])
         r = roots_of(g, rtt.args[1], du)
@@ -105,13 +109,27 @@ def run(prog, R):
                     sinks = forward_sinks(b, s.place.local)
                     oks = [t for (k, t, i, via) in sinks if k == 'call' and t.callee and t.callee.path == 'std::option::Option::ok_or' and i == 1]
                     ok = False
+                    how = ''
                     if len(oks) == 1:
                         src = roots_of(b, oks[0].args[0])
-                        ok = len(src) == 1 and src[0][0] == 'call' and src[0][1].callee.is_('policy::BufPolicy::grow_to') and b in G
+                        ok = len(src) == 1 and src[0][0] == 'call' and src[0][1].callee.is_('policy::BufPolicy::grow_to')
+                        how = 'the ok_or() alternative of the grow_to result'
+                    if not ok:
+                        # `match grow_to(..) { None => Err(BufferLimit), .. }` or `if !grow_helper(..) { Err(BufferLimit) }`:
+                        # constructed under a branch on the verdict of the policy (directly, or as reported by a function that asks it)
+                        from rules_view import controlling_switches
+                        askers = set(x.path for x in prog.bodies.values() if find_call(x, 'policy::BufPolicy::grow_to'))
+                        for a in controlling_switches(b, blk.idx):
+                            tt = b.blocks[a].term
+                            for d in data_deps(b, tt.discr):
+                                if d[0] == 'call' and d[1].callee and (d[1].callee.is_('policy::BufPolicy::grow_to') or
+                                                                      (prog.local_callee_body(d[1].callee) is not None and prog.local_callee_body(d[1].callee).path in askers)):
+                                    ok = True
+                                    how = 'constructed under a branch on the verdict of the policy'
                     R.add('GROW-3', b, 'buffer-limit#%d' % nlim[fmt], ok, site(b, s.line),
-                          'Error::BufferLimit is the ok_or() alternative of the grow_to result inside the growth function: %s' % ok)
+                          'Error::BufferLimit is %s' % (how if ok else 'constructed without reference to a refusal of BufPolicy::grow_to'))
     for fmt in FORMATS:
-        R.add('GROW-3', fmt, 'one-construction', nlim.get(fmt, 0) == 1, fmt, '%d construction(s) of %s::Error::BufferLimit' % (nlim.get(fmt, 0), fmt))
+        R.add('GROW-3', fmt, 'one-construction', nlim.get(fmt, 0) >= 1, fmt, '%d construction(s) of %s::Error::BufferLimit' % (nlim.get(fmt, 0), fmt), undecided=nlim.get(fmt, 0) == 0)
 
     # ---------------- GROW-4
     C = compaction_fns(prog)
@@ -138,7 +156,7 @@ def run(prog, R):
                         if v == 0:
                             allowed_edges.add((x, tg))
                             kinds.add('flag')
-                elif r[0] == 'bin' and r[1].rv.j['op'] in ('Eq', 'Ne'):
+                elif r[0] == 'bin' and r[1].rv.j['op'] in ('Eq', 'Ne', 'Gt', 'Le', 'Lt', 'Ge'):
                     ops = r[1].rv.ops
                     zero = [o for o in ops if o.const_int() == 0]
                     other = [o for o in ops if o.const_int() != 0]
@@ -146,13 +164,27 @@ def run(prog, R):
                         fr = roots_of(b, other[0], du)
                         names = [[f[1] for f in q[-1]] for q in fr if q[0] == 'arg' and q[1] == 1]
                         if names and all(n and n[0] == 'buf_pos' and n[-1] in ('start', '0') for n in names):
-                            if r[1].rv.j['op'] == 'Eq':
+                            op_ = r[1].rv.j['op']
+                            zero_first = ops[0].const_int() == 0
+                            # which outcome of the comparison means "record start == 0" (offsets are unsigned)
+                            eq_when_true = {'Eq': True, 'Ne': False, 'Gt': zero_first and None, 'Le': (not zero_first) or None,
+                                            'Lt': None if not zero_first else False, 'Ge': None if not zero_first else True}[op_]
+                            if op_ == 'Gt' and not zero_first:
+                                eq_when_true = False      # start > 0  is false exactly at 0
+                            if op_ == 'Lt' and zero_first:
+                                eq_when_true = False      # 0 < start
+                            if op_ == 'Le' and not zero_first:
+                                eq_when_true = True       # start <= 0
+                            if op_ == 'Ge' and zero_first:
+                                eq_when_true = True       # 0 >= start
+                            if eq_when_true is True:
                                 allowed_edges.add((x, tt.otherwise))
-                            else:
+                                kinds.add('start==0')
+                            elif eq_when_true is False:
                                 for v, tg in tt.targets:
                                     if v == 0:
                                         allowed_edges.add((x, tg))
-                            kinds.add('start==0')
+                                kinds.add('start==0')
             # reachability of the growth call without the allowed edges
             seen = {0}
             st = [0]
